@@ -638,7 +638,8 @@ func (s *Sim) Run(estSteps int) {
 	var elig []*Task
 	lastSite := siteStart
 	lowPrio := 0
-	blockedOnly := 0 // consecutive steps in which only blocked tasks could be run
+	blockedOnly := 0  // consecutive steps in which only blocked tasks could be run
+	graceLeft := 2000 // milliseconds of real time granted to goroutines outside the simulation
 	rr := 0
 	for {
 		// Who is still alive?
@@ -703,6 +704,14 @@ func (s *Sim) Run(estSteps int) {
 				s.advance(next)
 				blockedOnly = 0
 			}
+			if blockedOnly > 3*k+16 && graceLeft > 0 {
+				// Before calling it a deadlock, give goroutines outside the
+				// simulation (a finalizer the runtime is running, set-up code)
+				// real time to let go of whatever the tasks are waiting for.
+				graceLeft--
+				time.Sleep(time.Millisecond)
+				blockedOnly = 3 * k
+			}
 			if blockedOnly > 3*k+16 {
 				raceEnable()
 				if EarlierOrphans > 0 {
@@ -710,6 +719,9 @@ func (s *Sim) Run(estSteps int) {
 					os.Exit(77)
 				}
 				msg := fmt.Sprintf("INFRA: deadlock among simulated tasks: all %d live tasks are blocked and no timer is pending (step %d)", k, s.step)
+				for i := 0; i < k; i++ {
+					msg += fmt.Sprintf("\n  task %d (%s, root=%v) blocked inside %s, last inner point before %s", runnable[i].ID, runnable[i].Name, runnable[i].root, s.siteName(runnable[i].parked), s.pointName(runnable[i].at))
+				}
 				if RaceEnabled {
 					fatal(msg)
 				}
